@@ -8,6 +8,7 @@ import (
 	"time"
 
 	"github.com/zitadel/saml/pkg/provider"
+	"github.com/zitadel/saml/pkg/provider/key"
 
 	"verif/harness/core"
 	"verif/harness/env"
@@ -59,6 +60,19 @@ func c04Callback(r *core.Run, idx int, rng *rand.Rand) {
 	case 2:
 		sc.S.ACS = "https://" + strings.ToLower(canary) + ".sp.example/acs?a=1&b=2"
 	}
+	// in some cases signing cannot succeed: then no Success may leave the IdP (certainly not an unsigned one)
+	sigfail := ""
+	if idx%9 == 4 {
+		sigfail = []string{"alg_empty", "alg_unknown", "alg_md5", "key_mismatch"}[rng.Intn(4)]
+		switch sigfail {
+		case "alg_empty":
+			sc.Opts.SigAlg, sc.Opts.NoSigAlg = "", true
+		case "alg_unknown":
+			sc.Opts.SigAlg, sc.Opts.NoSigAlg = "urn:unknown:algorithm", true
+		case "alg_md5":
+			sc.Opts.SigAlg, sc.Opts.NoSigAlg = "http://www.w3.org/2001/04/xmldsig-more#rsa-md5", true
+		}
+	}
 	e := sc.build()
 	// the certificate the IdP publishes: metadata KeyDescriptor == certificate endpoint
 	mpath, cpath := env.PathMetadata, env.PathCert
@@ -92,9 +106,26 @@ func c04Callback(r *core.Run, idx int, rng *rand.Rand) {
 		viol(mv.Call, "published_certificate", "metadata KeyDescriptor and certificate endpoint publish different certificates")
 		return
 	}
+	if sigfail == "key_mismatch" {
+		e.W.RespKey = &key.CertificateAndKey{Certificate: e.W.RespKey.Certificate, Key: keys.Get("idp_meta").RSA}
+	}
 	call := sc.callback(e)
 	if call.Panic != "" {
 		viol(call, "panic", call.Panic)
+		return
+	}
+	if sigfail != "" {
+		r.Count("signing_failure_cases", 1)
+		class += ",sigfail=" + sigfail
+		if call.D.Success() {
+			fails, _, _ := verifyEmitted(call.D, mv.Cert)
+			for _, f := range fails {
+				viol(call, "success_after_signing_failure/"+f.Clause, f.Reason)
+			}
+			if len(fails) == 0 {
+				viol(call, "success_after_signing_failure", "a verifying Success although signing cannot have succeeded ("+sigfail+") - harness expectation wrong?")
+			}
+		}
 		return
 	}
 	if !call.D.Success() {
@@ -268,6 +299,7 @@ func init() {
 			r.Require("verified_redirect_query_signature", 100)
 			r.Require("verified_query_enveloped_assertion_signature", 50)
 			r.Require("verified_metadata_signature", 50)
+			r.Require("signing_failure_cases", 30)
 			r.Require("class_c14n_plain", 100)
 			r.Require("class_c14n_special", 50)
 			return []core.Workload{
